@@ -372,6 +372,12 @@ def decorate_metadata(model):
             for a in n.attribute:
                 if a.type == a.GRAPH:
                     graph(a.g)
+            for o in n.output:                               # values of the function body (FunctionProto.value_info)
+                if o and zlib.crc32(("v" + o).encode()) % 4 == 0 and o not in set(f.output):
+                    vi = f.value_info.add()
+                    vi.name = o
+                    p = vi.metadata_props.add()
+                    p.key, p.value = "vm", "of " + o
     return model
 
 
@@ -393,6 +399,7 @@ class HostResult:
         self.instances = []
         self.unmodelled_expected = 0
         self.name_case = None
+        self.namefix_cases = []
 
 
 def _exc_chain(e):
@@ -710,6 +717,10 @@ def eval_host(ctx, label, host, families, rng, stream="gen", want_ref=True, chec
     for f in ([] if known_invalid else new.functions):
         res.wf_terms.append((f"{label}/fn:{f.name}:{f.overload}", graphlit.function_lit(f), graphlit.imports_lit(f.opset_import)))
     res.instances = inst
+    if not known_invalid and not tracer.errors:
+        res.namefix_cases = [(f"{label}/{lab}", gtok, gname, pairs, vis) for lab, gtok, gname, pairs, vis in tracer.namefix]
+    for err in tracer.errors:
+        res.ties.append(("tracer", f"{label}: {err}"))
     return res, model
 
 
@@ -750,6 +761,7 @@ def reference_instances(host, families):
 # ----------------------------------------------------------------------------- Coq evaluation of the collected cases
 
 FLAGS = ["as_is"]          # the repair flags of OV.Rewrite.State matching the source being checked (set by probe_flags)
+NAMEFIX_CASES = []         # (label, token graph, final-name graph, pairs, visible names) after NameFixPass, sampled hosts
 NAME_CASES = []            # (label, (names in use before, bound, names of the values created)) of sampled hosts
 TARGETED_VIOLATED = set()  # traced targeted hosts on which the property oracle reported a (known) violation
 STATE_DIFF = {}            # label -> (code, event index, differing component) of the last coq_replay
@@ -934,7 +946,7 @@ def stream_generated(ctx, n_hosts):
         rng, rule_set, host = generated_host(seeds[h], h)
         size = None
         label = f"gen{h}"
-        res, model = eval_host(ctx, label, host, rule_set, rng, want_ref=(ctx.tier == "thorough" or h % 3 == 0))
+        res, model = eval_host(ctx, label, host, rule_set, rng, want_ref=(h % 2 == 0 if ctx.tier == "thorough" else h % 3 == 0))
         tags = sorted(host.tags)
         nest = tuple(sorted({t.split(":")[1] for t in tags if t.startswith("nest:")}))
         ctx.case(("gen", "+".join(rule_set), nest, min(res.count or 0, 3),
@@ -958,6 +970,8 @@ def stream_generated(ctx, n_hosts):
             ctx.tie_broken("correspondence", s, d)
         all_cases += res.coq_cases
         all_wf += res.wf_terms
+        if h % 3 == 0:
+            NAMEFIX_CASES.extend(res.namefix_cases)
         if res.name_case and h % 4 == 0 and res.name_case[1] <= 60:      # (fresh_seq is cubic in the number of draws)
             NAME_CASES.append((label, res.name_case))
         meta[label] = (rule_set, replay)
@@ -1387,6 +1401,82 @@ def stream_returned(ctx):
                    "; ".join(labels[i][0] for i in bad))
 
 
+def stream_history(ctx):
+    """One RewriteRuleSet object rewrites two models in sequence; the second result must be byte-identical to what fresh rule and
+    rule-set objects give for the same model (the names of the values created are a function of the model and the rule set
+    alone: C07_names_function_of_model_fixed).  The second result also enters the fresh-names tie (fresh_seq: counter from 0)."""
+    import random
+    import inspect
+    from onnxscript import rewriter
+    from onnxscript.rewriter import pattern as orp
+    import onnxscript.rewriter._rewrite_rule as rr
+    resets = "_value_name_counter = 0" in inspect.getsource(rr.RewriteRuleSet.apply_to_model)
+    ctx.cover(source_restarts_fresh_name_counter_per_model=resets)
+    for k, fams in enumerate([["chain2"], ["dtrans"], ["mul1_node"], ["bin_nested", "swap_add"], ["chain3", "chain2"], ["dag_a"]]):
+        rng = random.Random(1000 + k)
+        hosts = []
+        for _ in range(2):
+            gen = G.HostGen(rng, fams, size=8, nest=0.3)
+            host = gen.host(n_inputs=2, depth=1)
+            live_host(host, gen)
+            hosts.append(decorate_metadata(G.to_model(host)))
+        ctx.case(("history", "+".join(fams)))
+        replay = {"stream": "history", "rule_set": fams, "models": [m.SerializeToString().hex() for m in hosts]}
+        try:
+            shared = orp.RewriteRuleSet([b.rule for b in G.make_rule_set(fams)])
+            rewriter.rewrite(copy.deepcopy(hosts[0]), shared)
+            second = rewriter.rewrite(copy.deepcopy(hosts[1]), shared)
+            alone = rewriter.rewrite(copy.deepcopy(hosts[1]), orp.RewriteRuleSet([b.rule for b in G.make_rule_set(fams)]))
+        except Exception as e:
+            ctx.violation(f"C07:history:raises:{'+'.join(fams)}", f"rewrite() raised {type(e).__name__}: {str(e)[:200]}", replay)
+            continue
+        if second.SerializeToString(deterministic=True) != alone.SerializeToString(deterministic=True):
+            a = sorted({o for n in _all_nodes(second.graph) for o in n.output} - {o for n in _all_nodes(alone.graph) for o in n.output})
+            ctx.violation(f"C07:fresh-names:depend-on-models-rewritten-before:{'+'.join(fams)}",
+                          "a RewriteRuleSet object that has rewritten another model before gives a different result for the same "
+                          f"model than fresh rule objects (names only in the second result: {a[:4]})", replay)
+
+        def names(mm):
+            return {i.name for i in mm.graph.input} | {o for n in _all_nodes(mm.graph) for o in n.output if o} | \
+                   {i.name for i in mm.graph.initializer}
+        used0 = names(hosts[1])
+        created = sorted({o for n in _all_nodes(second.graph) for o in n.output if o} - used0)
+        if len(created) <= 20:
+            NAME_CASES.append((f"history:{'+'.join(fams)}", (sorted(used0), 2 * len(created) + 2, created)))
+
+
+def check_namefix(ctx):
+    """NameFixPass as run at the end of apply_to_model: the container over the final names is the relabelling namefix (rn_of pairs)
+    of the container over tokens, and the relabelling satisfies the executable hypotheses namefix_okb of C07_namefix_sound /
+    C07_rewrite_then_namefix_sound (injective, capture-free, graph outputs untouched, no reference attributes)."""
+    if not NAMEFIX_CASES:
+        return
+    bodies, labels = [], []
+    for j in range(0, len(NAMEFIX_CASES), 60):
+        chunk = NAMEFIX_CASES[j:j + 60]
+        lines = []
+        for i, (_label, gtok, gname, pairs, vis) in enumerate(chunk):
+            lines.append(f"Definition gt_{i} : graph := {gtok}.\nDefinition gn_{i} : graph := {gname}.\n"
+                         f"Definition pr_{i} : list (vname * vname) := {pairs}.\nDefinition vi_{i} : list vname := {vis}.")
+        lst = clist([f"({i}, namefix_okb (rn_of pr_{i}) vi_{i} gt_{i} && OV.Rewrite.Apply.graph_eqb (namefix (rn_of pr_{i}) gt_{i}) gn_{i})"
+                     for i in range(len(chunk))])
+        lines.append(f"Eval vm_compute in (map fst (filter (fun r => negb (snd r)) {lst})).")
+        bodies.append("\n".join(lines))
+        labels.append([c[0] for c in chunk])
+    outs = ctx.coq_eval_shards(["OV.Graph.Syntax", "OV.Rewrite.Apply", "OV.Rewrite.NameFix"], bodies, par=8)
+    bad = []
+    for (ok, vals, raw), labs in zip(outs, labels):
+        if not ok or not vals:
+            ctx.tie_broken("correspondence", "namefix:model-evaluation", raw[-1200:])
+            return
+        bad += [labs[i] for i in common.parse_nat_list(vals[0])]
+    for label in bad[:5]:
+        ctx.tie_broken("correspondence", "namefix:relabelling", f"{label}: the container after NameFixPass is not namefix (rn_of pairs) of the "
+                                                                "token graph, or namefix_okb fails")
+    ctx.obligation(f"correspondence namefix: {len(NAMEFIX_CASES)} containers after NameFixPass are the relabelling namefix (rn_of pairs) of their "
+                   "token graph and satisfy namefix_okb (hypotheses of C07_rewrite_then_namefix_sound)", not bad, "; ".join(bad[:5]))
+
+
 def check_fresh_names(ctx):
     """Repaired variant only (the rewriter names the values it creates itself, unique over the model): every name that appears in
     the rewritten model is one of the names OV.Rewrite.Naming.fresh_seq draws against the names in use before."""
@@ -1537,8 +1627,11 @@ def run(ctx):
     ctx.cover(source_has_initializer_clash_repair=displaced, source_has_function_subgraph_imports_repair=owner)
 
     NAME_CASES.clear()
+    NAMEFIX_CASES.clear()
     quick = ctx.tier == "quick"
-    n_hosts = len(RULE_SETS) * (8 if quick else 60)
+    # thorough: 40 hosts per rule set (was 60); onnx.reference on every second host; 60 proto-vs-IR hosts (was 120): the streams
+    # are samples of the same generators, the bounded-exhaustive small-host stream and the container plan stay complete
+    n_hosts = len(RULE_SETS) * (8 if quick else 40)
     cases, wf, meta, stats, hist, violated = stream_generated(ctx, n_hosts)
     c2, w2, st2 = stream_small(ctx, 4, 150 if quick else None)
     cases += c2
@@ -1547,8 +1640,9 @@ def run(ctx):
     stream_targeted(ctx, cases, wf)
     violated |= TARGETED_VIOLATED
     stream_returned(ctx)
+    stream_history(ctx)
     st3 = stream_containers(ctx, cases, wf, meta)
-    ir_diffs = stream_ir_path(ctx, 20 if quick else 120)
+    ir_diffs = stream_ir_path(ctx, 20 if quick else 60)
 
     failing, uncovered, unordered = coq_replay(ctx, cases)
     if failing is not None:
@@ -1589,6 +1683,7 @@ def run(ctx):
                        "imports filtered from the parent), node and value metadata_props observed when the sweep ended", not sdiff,
                        "; ".join(f"{k}:{v}" for k, v in list(sdiff.items())[:5]))
     check_fresh_names(ctx)
+    check_namefix(ctx)
     bad_wf, bad_imp = coq_wf(ctx, wf)
     if bad_wf is not None:
         for label in bad_wf:
